@@ -260,6 +260,18 @@ def run_index(case):
         sig = {"mode": "position", "by": by}
         for name, f in P:
             _apply(f, pexc, vals, dims, labels, pidx, "%s pidx=%s" % (name, core.jsonable(pidx)), sig)
+    # the array remembers the mode it was created under; `.ix` is the toggle of the array's own mode, also when the global option has
+    # been changed in between
+    other = "position" if by == "label" else "label"
+    with core.options(indexing_by=other):
+        sigx = {"mode": "cross-option", "by": by}
+        if by == "label":
+            _apply(lambda: a[lt], lexc, vals, dims, labels, lidx, "a[t] on an array created under by=label, option now position lidx=%s" % core.jsonable(lidx), sigx)
+            _apply(lambda: a.ix[pt], pexc, vals, dims, labels, pidx, "a.ix[t] on an array created under by=label, option now position pidx=%s" % core.jsonable(pidx), sigx)
+        else:
+            _apply(lambda: a[pt], pexc, vals, dims, labels, pidx, "a[t] on an array created under by=position, option now label pidx=%s" % core.jsonable(pidx), sigx)
+            _apply(lambda: a.ix[lt], lexc, vals, dims, labels, lidx, "a.ix[t] on an array created under by=position, option now label lidx=%s" % core.jsonable(lidx), sigx)
+    with core.options(indexing_by=by):
         core.expect_unchanged(a, snap, "indexing", sig={"mode": "operand"})
         for x, x0 in frozen:          # index arrays handed to the library are arguments of a non-in-place operation
             check(x.dtype == x0.dtype and np.array_equal(x, x0), "index-argument-modified", {"what": "lidx=%s pidx=%s" % (core.jsonable(lidx), core.jsonable(pidx)),
